@@ -257,6 +257,17 @@ def run_C10(tier, seed):
             v = lines[j].split(",")[0]
             lines[j] = f"{v}, {v}"
         cases.append({"rules": free_inputs_variant(rng, "\n".join(lines)), "seed": rng.randrange(10**9), "k": 3})
+    # in ADDITION (separate random stream): networks whose variable names are prefixes of one another (v, v_k, v_k_k, ...): places and transitions
+    # must be told apart by the exact name (seeded change w11_C17)
+    rngp = random.Random(seed ^ 0xC10)
+    for _ in range(_sizes(tier, 40, 400)):
+        rules = gen_network(rngp, 3, 6)
+        names = [l.split(",")[0].strip() for l in rules.splitlines()]
+        new = ["v" + "_k" * i for i in range(len(names))]
+        rngp.shuffle(new)
+        mp = dict(zip(names, new))
+        rules = "\n".join(re.sub(r"[A-Za-z_][A-Za-z0-9_]*", lambda m_: mp.get(m_.group(0), m_.group(0)), l) for l in rules.splitlines())
+        cases.append({"rules": rules, "seed": rngp.randrange(10**9), "k": 4})
     ws = pmap(_c10_worker, cases)
     viol = []
     nchecks = 0
@@ -271,7 +282,7 @@ def run_C10(tier, seed):
     if tier == "thorough":
         extra["bbm"] = bbm_symbolic_pn_check(viol)
     return {"evaluations": nchecks, "distinct_nontrivial": len({case_hash(w["case"]) for w in good if w["n"] >= 3}),
-            "rule": "random/modular networks: the real global Petri net must pass the verified exact faithfulness test (pn_faithful_b, PetriNetFacts.pn_faithful_b_spec); restrictions to random subspaces and node spaces must equal the model's restrict_pn and be faithful on the subspace; restriction through the parent's net must equal direct restriction; percolate_network (with/without constant removal) must keep exactly the free variables with unchanged dynamics on the percolated space; thorough: BDD equivalence of every update function with its transitions for all repository models",
+            "rule": "random/modular networks (plus networks whose variable names are prefixes of one another: v, v_k, v_k_k, ...): the real global Petri net must pass the verified exact faithfulness test (pn_faithful_b, PetriNetFacts.pn_faithful_b_spec); restrictions to random subspaces and node spaces must equal the model's restrict_pn and be faithful on the subspace; restriction through the parent's net must equal direct restriction; percolate_network (with/without constant removal) must keep exactly the free variables with unchanged dynamics on the percolated space; thorough: BDD equivalence of every update function with its transitions for all repository models",
             "samples": [{"rules": w["case"]["rules"]} for w in good[:3]], "violations": viol, "extra": extra}
 
 def bbm_symbolic_pn_check(viol):
